@@ -10,7 +10,7 @@ import (
 
 // Op is one operation of a history over two URL slots (0 = A, 1 = B).
 type Op struct {
-	K    string // s r R c a d t o O q T
+	K    string // s r R c a d t o O q T A
 	Slot int
 	W    int // setter index for K == "s"
 	A, B string
@@ -43,6 +43,8 @@ func (o Op) String() string {
 		return fmt.Sprintf("%s.SearchParams().Get/GetAll/Has(%q)", sl, o.A)
 	case "T":
 		return sl + ".SearchParams()"
+	case "A":
+		return fmt.Sprintf("%s.SetSearchParams(%s.SearchParams())", sl, "BA"[o.Slot:o.Slot+1])
 	}
 	return "?"
 }
@@ -56,7 +58,7 @@ func (o Op) Token() string {
 		return "r " + sl + " " + hx(o.A)
 	case "R":
 		return "R " + hx(o.A)
-	case "c", "o", "O", "T":
+	case "c", "o", "O", "T", "A":
 		return o.K + " " + sl
 	case "a", "t":
 		return o.K + " " + sl + " " + hx(o.A) + " " + hx(o.B)
@@ -191,6 +193,11 @@ func (h *implHist) step(o Op) (st Step) {
 		case "T":
 			if u != nil {
 				h.handle(o.Slot)
+			}
+		case "A":
+			// the argument is the other URL's own handle (obtained now or earlier)
+			if u != nil && h.u[1-o.Slot] != nil {
+				u.SetSearchParams(h.handle(1 - o.Slot))
 			}
 		}
 	}()
